@@ -34,7 +34,7 @@ def sum_hist(reports, pred):
 def ctor_flow(prop, tier, seed, rule, guards_fn, assumptions=None):
     res = Result(prop, tier, seed)
     res.rule = rule
-    out, by_id = runtime_check(res, "rt-%s-s%d" % (tier, seed), ctor_decls(tier, seed), [prop])
+    out, by_id = runtime_check(res, "rt-%s" % tier, ctor_decls(tier, seed), [prop])
     if out is None:
         return finish(res)
     reports = out[prop]
@@ -321,7 +321,7 @@ def check_c08(tier, seed):
     groups = [("all", cratebuild.ALL_FEATURES, FULL_DEPS), ("f0", ["std"], "")]
     for gname, feats, deps in groups:
         cases = corpus_verdict.build(tier, seed, feats, gname)
-        vc = verdict.VerdictCrate("c08-%s-%s-s%d" % (gname, tier, seed), feats, extra_deps=deps)
+        vc = verdict.VerdictCrate("c08-%s-%s" % (gname, tier), feats, extra_deps=deps)
         try:
             out, info = verdict.run_verdicts(vc, cases, log=log)
         except Inconclusive as e:
